@@ -972,6 +972,86 @@ fn cursor_interleavings(rep: &Report, st: &mut Stats, s: &Subject, steps: usize)
     };
     let mut left = n;
     rec(&mut order, &mut left, &mut run_one);
+    handover(rep, st, s, steps + 2);
+}
+
+/// One paused stepwise overlapping search (a single `OverlappingState`) handed
+/// back and forth between a searcher and its clone - the top-level searcher
+/// and the three low-level automaton types: every assignment of the steps to
+/// "original" / "clone" must give the sequence that one owner alone gives.
+fn handover(rep: &Report, st: &mut Stats, s: &Subject, k: usize) {
+    use aho_corasick::automaton::Automaton;
+    if s.mk != Kind::Std {
+        return;
+    }
+    let [dense, _, _] = s.hays();
+    let fm = |m: aho_corasick::Match| format!("({},{},{})", m.pattern().as_usize(), m.start(), m.end());
+    fn drive<A: Automaton>(a: &A, b2: &A, h: &[u8], k: usize, mask: u32, fm: &dyn Fn(aho_corasick::Match) -> String) -> Vec<String> {
+        let mut stt = OverlappingState::start();
+        let mut v = vec![];
+        for i in 0..k {
+            let who = if mask >> i & 1 == 0 { a } else { b2 };
+            match who.try_find_overlapping(&Input::new(h), &mut stt) {
+                Err(e) => v.push(format!("ERR {}", e)),
+                Ok(()) => v.push(stt.get_match().map(fm).unwrap_or_else(|| "None".into())),
+            }
+        }
+        v
+    }
+    let nn = match aho_corasick::nfa::noncontiguous::Builder::new().match_kind(s.mk.ac()).ascii_case_insensitive(s.ci).build(&s.pats) {
+        Ok(n) => n,
+        Err(_) => return,
+    };
+    let cn = aho_corasick::nfa::contiguous::Builder::new().build_from_noncontiguous(&nn);
+    let df = aho_corasick::dfa::Builder::new().build_from_noncontiguous(&nn);
+    let top = s.build();
+    let mut check = |which: &str, f: &dyn Fn(u32) -> Vec<String>| {
+        let exp = f(0);
+        for mask in 1..(1u32 << k) {
+            st.add("handover_sequences", 1);
+            let got = catch_unwind(AssertUnwindSafe(|| f(mask)));
+            if got.as_ref().ok() != Some(&exp) {
+                rep.violation(Violation {
+                    property: rep.property.clone(),
+                    what: "overlapping-state-handover".into(),
+                    case: case(s, "cursors", &[], &[]),
+                    detail: format!(
+                        "{} {} ({}): one OverlappingState stepped {} times on \"{}\", step i on the {} (bit i of {:#b}): got {:?}; on one owner alone {:?}",
+                        s.name, pats_show(&s.pats), which, k, json::show(&dense), "original (0) or its clone (1)", mask, got.map_err(|p| crate::aut::panic_msg(&p)), exp
+                    ),
+                    tags: vec![("subject".into(), s.name.into())],
+                });
+                return;
+            }
+        }
+    };
+    {
+        let (a, b2) = (&nn, nn.clone());
+        check("noncontiguous NFA and its clone", &|m| drive(a, &b2, &dense, k, m, &fm));
+    }
+    if let Ok(c) = &cn {
+        let b2 = c.clone();
+        check("contiguous NFA and its clone", &|m| drive(c, &b2, &dense, k, m, &fm));
+    }
+    if let Ok(d) = &df {
+        let b2 = d.clone();
+        check("DFA and its clone", &|m| drive(d, &b2, &dense, k, m, &fm));
+    }
+    {
+        let b2 = top.clone();
+        check("AhoCorasick and its clone", &|m| {
+            let mut stt = OverlappingState::start();
+            let mut v = vec![];
+            for i in 0..k {
+                let who = if m >> i & 1 == 0 { &top } else { &b2 };
+                match who.try_find_overlapping(&dense, &mut stt) {
+                    Err(e) => v.push(format!("ERR {}", e)),
+                    Ok(()) => v.push(stt.get_match().map(fm).unwrap_or_else(|| "None".into())),
+                }
+            }
+            v
+        });
+    }
 }
 
 /// Free-running complement (NOT part of the exhaustive exploration, and
